@@ -7,10 +7,11 @@ from .c04 import write_cfg, validate_batches
 from .drv import P, CODE
 
 
-def trace_cfg(wd):
-    return write_cfg(os.path.join(wd, 'Trace_Vbs.cfg'),
+def trace_cfg(wd, maxlen=None):
+    maxlen = maxlen or drv.max_vbs_len()
+    return write_cfg(os.path.join(wd, 'Trace_Vbs-%d.cfg' % maxlen),
                      'CONSTANTS P = 1012 T = 2 PAD = 64 MaxLen = %d\nSPECIFICATION TSpec\nPOSTCONDITION AllAccepted\n'
-                     'CHECK_DEADLOCK FALSE\n' % drv.max_vbs_len())
+                     'CHECK_DEADLOCK FALSE\n' % maxlen)
 
 
 def describe(t, r):
@@ -21,8 +22,8 @@ def describe(t, r):
             'observed': e.get('_observed')}
 
 
-def validate(rep, wd, batches, prefix, keymap=None):
-    cfg = trace_cfg(wd)
+def validate(rep, wd, batches, prefix, keymap=None, maxlen=None):
+    cfg = trace_cfg(wd, maxlen)
     before = len(rep.violations) + len(rep.known_hit)
 
     def desc(t, r):
